@@ -51,6 +51,33 @@ M("C02", "id-masked-48", LAN, 'header += device_id.to_bytes(8, "little")  # Devi
   'header += (device_id & 0xFFFFFFFFFFFF).to_bytes(8, "little")  # Device ID')
 M("C02", "timestamp-year-overflow", LAN, "int(now.year / 100)\n", "now.year - 1900\n")
 
+# ---- C03
+M("C03", "hash-prefix-only", LAN, "if Security.sign(bytes(packet[:-16])) != rx_hash:", "if Security.sign(bytes(packet[:-16]))[:4] != rx_hash[:4]:")
+M("C03", "no-hash-check", LAN, "if Security.sign(bytes(packet[:-16])) != rx_hash:", "if False:")
+M("C03", "sign-header-only", LAN, "if Security.sign(bytes(packet[:-16])) != rx_hash:", "if Security.sign(bytes(packet[:40])) != Security.sign(bytes(packet[:40])) or len(rx_hash) != 16:")
+M("C03", "hash-skip-last-byte", LAN, "if Security.sign(bytes(packet[:-16])) != rx_hash:", "if Security.sign(bytes(packet[:-16]))[:15] != rx_hash[:15]:")
+# (marker-first-byte-only is an equivalent mutant for C03: the signature covers the marker)
+
+# ---- C04
+M("C04", "total-size-plus-6", LAN, 'total_size = int.from_bytes(buf[2:4], "big") + 8', 'total_size = int.from_bytes(buf[2:4], "big") + 6')
+M("C04", "drop-carry-over", LAN, "packet, self._buffer = buf[:total_size], bytearray(\n                    buf[total_size:])", "packet, self._buffer = buf[:total_size], bytearray()")
+M("C04", "no-loop-second-packet", LAN, "while len(self._buffer) > 0:\n            # Find start of packet", "if len(self._buffer) > 0:\n            # Find start of packet")
+M("C04", "partial-off-by-one", LAN, "if len(buf) < total_size:", "if len(buf) <= total_size:")
+M("C04", "no-trim-garbage", LAN, "                buf = buf[start:]\n", "                pass\n")
+M("C04", "drop-buffer-without-marker", LAN, "        self._buffer += data\n", "        self._buffer = (self._buffer + data) if self._buffer[:2] == b\"\\x83\\x70\" else bytearray(data)\n")
+M("C04", "size-little-endian", LAN, 'total_size = int.from_bytes(buf[2:4], "big") + 8', 'total_size = int.from_bytes(buf[2:4], "little") + 8')
+
+# ---- C05
+M("C05", "pad-no-zero-case", LAN, "pad = 16 - remainder if remainder != 0 else 0", "pad = 16 - remainder")
+M("C05", "tag-payload-only", LAN, "calc_hash = sha256(header + payload).digest()", "calc_hash = sha256(payload).digest()")
+M("C05", "size-includes-counter", LAN, "length = len(data) + pad + 32", "length = len(data) + pad + 34")
+M("C05", "no-tag-check", LAN, "if sha256(bytes(header) + decrypted_payload).digest() != rx_hash:", "if False:")
+M("C05", "pad0-slice-regression", LAN, "return payload[2:len(payload) - pad].tobytes()", "return payload[2:-pad].tobytes()")
+M("C05", "tag-prefix-only", LAN, "if sha256(bytes(header) + decrypted_payload).digest() != rx_hash:", "if sha256(bytes(header) + decrypted_payload).digest()[:16] != rx_hash[:16]:")
+M("C05", "counter-little-endian", LAN, 'payload = packet_id.to_bytes(2, "big") + data + get_random_bytes(pad)', 'payload = packet_id.to_bytes(2, "little") + data + get_random_bytes(pad)')
+M("C05", "no-block-check", LAN, "        if len(payload) % 16 != 0:\n            raise ProtocolError(\n                f\"Invalid encrypted payload length: {len(payload)}\")\n", "")
+M("C05", "tag-ignores-header", LAN, "if sha256(bytes(header) + decrypted_payload).digest() != rx_hash:", "if sha256(bytes(header[:5]) + decrypted_payload).digest() != sha256(bytes(header[:5]) + decrypted_payload).digest() or len(rx_hash) != 32:")
+
 
 def apply_mutant(src_root: str, file: str, old: str, new: str) -> None:
     p = os.path.join(src_root, file)
